@@ -59,10 +59,11 @@ package xmlenc
 //@    e == encryptedKey.FindElement("./KeyInfo/X509Data/X509Certificate")
 //@ assert@call[C11] ParseCertificate #1 (der []byte) uses certPEM *pem.Block parses_that_certificate:
 //@    certPEM != nil && sameSlice(der, certPEM.Bytes)
-//@ assert@return[C11] #last uses cert=cert? *x509.Certificate, certSeen=reached:cert bool, pubKey=pubKey? *rsa.PublicKey, pubSeen=reached:pubKey bool, rsaKey *rsa.PrivateKey certificate_matches_key:
-//@    encryptedKey.FindElement("./KeyInfo/X509Data/X509Certificate") != nil ==>
+//@ -- (at every return, about the key being returned: whichever return statement a rewrite makes the successful one)
+//@ assert@return[C11] #each (k *rsa.PrivateKey, e error) uses cert=cert? *x509.Certificate, certSeen=reached:cert bool, pubKey=pubKey? *rsa.PublicKey, pubSeen=reached:pubKey bool certificate_matches_key:
+//@    e == nil && encryptedKey.FindElement("./KeyInfo/X509Data/X509Certificate") != nil ==>
 //@    certSeen && pubSeen && cert != nil && pubKey != nil && isRSAPub(cert.PublicKey) && pubKey == cert.PublicKey.(*rsa.PublicKey) &&
-//@    BigEq(rsaKey.N, pubKey.N) && rsaKey.E == pubKey.E
+//@    k != nil && BigEq(k.N, pubKey.N) && k.E == pubKey.E
 //@ go func isRSAPub(k interface{}) bool { _, ok := k.(*rsa.PublicKey); return ok }
 
 //@ contract (CBC).Decrypt
